@@ -3,11 +3,11 @@
    Each theorem relates the evaluation ALGORITHM of the model (cumulative sums, nonzero, grouping,
    coordinate mapping; tied to the code by correspondence on all 16 modelled classes) to the
    documented formula written directly.  Classes whose formula theorem is not proved here
-   (EnforceTranslation, EnforceChanges, AvoidRareCodons, MaximizeCAI, HarmonizeRCA, UniquifyAllKmers,
-   AvoidHairpins, EnforceTerminalGCContent) are decided by correspondence + independent references. *)
+   (MaximizeCAI: see C07; HarmonizeRCA, UniquifyAllKmers, AvoidHairpins) are decided by
+   correspondence + independent references. *)
 From Coq Require Import ZArith QArith Qminmax Qabs Bool List Ascii String Lia.
 From DC Require Import Model.Base Model.Loc Model.Bio Model.Pattern Model.MSpace Model.Specs
-                       Generated.GenTables Proofs.SpecsDefs Proofs.SpecsEval Proofs.SpecsLocalA Proofs.SpecsLocalB Proofs.SpecsLocalC.
+                       Generated.GenTables Proofs.SpecsDefs Proofs.SpecsEval Proofs.SpecsLocalA Proofs.SpecsLocalB Proofs.SpecsLocalC Proofs.Meaning2.
 Import ListNotations.
 Open Scope Z_scope.
 
@@ -107,3 +107,63 @@ Example C10_ex_gc :
              (evaluate (SGC (1 # 4) (3 # 4) (Some 4) (mkLoc 0 8 0)) (sq "GGGGAAAA"))
   = Some (true, Some [mkLoc 0 8 0]).
 Proof. vm_compute. reflexivity. Qed.
+
+(* ---- second series (Proofs/Meaning2.v) ---- *)
+
+(* EnforceChanges as a constraint: score = changed positions - minimum; location or indices form
+   (location form: the location lies within the sequence, i.e. as long as the reference - refuted
+   without it: enforce_changes_location_length_needed) *)
+Theorem C10_enforce_changes_minimum_meaning : forall l idx ref m am s e sub,
+  extract_subsequence l idx s = Some sub -> zlen sub = zlen ref ->
+  (idx = None -> loc_len l = zlen ref) ->
+  eval_enforce_changes l idx ref (Some m) am s = Some e ->
+  score e = zq (n_changed sub ref - m) /\
+  (passes e = true <-> m <= n_changed sub ref) /\
+  locs e = Some [l].
+Proof. exact enforce_changes_minimum_meaning. Qed.
+Print Assumptions C10_enforce_changes_minimum_meaning.
+
+Theorem C10_enforce_changes_amount_meaning : forall l idx ref a s e sub,
+  extract_subsequence l idx s = Some sub -> zlen sub = zlen ref ->
+  (idx = None -> loc_len l = zlen ref) ->
+  eval_enforce_changes l idx ref None (Some a) s = Some e ->
+  (score e == - Qabs (zq (n_changed sub ref) - a))%Q /\
+  (passes e = true <-> (zq (n_changed sub ref) == a)%Q).
+Proof. exact enforce_changes_amount_meaning. Qed.
+Print Assumptions C10_enforce_changes_amount_meaning.
+
+Theorem C10_translation_meaning : forall T l tr s e,
+  eval_translation T l tr StartNone s = Some e ->
+  exists got, translate_start T (extract l s) false = Some got /\
+    let wrong := filter (fun p => match snd p with
+                                  | Some want => negb (Ascii.eqb (fst p) want)
+                                  | None => true
+                                  end)
+                        (combine got (map (fun i => nth_error tr i) (List.seq 0 (List.length got)))) in
+    score e = zq (- zlen wrong) /\
+    (passes e = true <-> wrong = []) /\
+    (wrong = [] -> List.length got <= List.length tr /\ got = firstn (List.length got) tr)%nat.
+Proof. exact translation_meaning. Qed.
+Print Assumptions C10_translation_meaning.
+
+Theorem C10_rare_codons_meaning : forall fr mf l s e,
+  eval_rare_codons fr mf l s = Some e ->
+  exists cods, get_codons l s = Some cods /\
+    let is_rare c := match qassoc c fr with Some f => negb (Qle_bool mf f) | None => false end in
+    (score e == qsum (map (fun c => match qassoc c fr with Some f => (f - mf)%Q | None => 0%Q end)
+                          (filter is_rare cods)))%Q /\
+    (score e <= 0)%Q /\
+    (passes e = true <-> forall c, In c cods -> is_rare c = false).
+Proof. exact rare_codons_meaning. Qed.
+Print Assumptions C10_rare_codons_meaning.
+
+Theorem C10_terminal_gc_meaning : forall mini maxi ends s,
+  (mini <= maxi)%Q ->
+  let e := eval_terminal_gc mini maxi ends s in
+  let g w := (count_gc (extract w s) # Z.to_pos (zlen (extract w s))) in
+  (score e == - qsum (map (fun w => breach mini maxi (g w)) ends))%Q /\
+  (passes e = true <-> forall w, In w ends -> (mini <= g w)%Q /\ (g w <= maxi)%Q) /\
+  (forall w, In w ends -> ~ ((mini <= g w)%Q /\ (g w <= maxi)%Q) ->
+     exists ls, locs e = Some ls /\ In w ls).
+Proof. exact terminal_gc_meaning. Qed.
+Print Assumptions C10_terminal_gc_meaning.
